@@ -126,4 +126,26 @@ Proof. vm_compute. reflexivity. Qed.
 Example ex_typed_marshal : (marshal_objectpath_typed (objectpath_to_owned p_ab), marshal_objectpath_typed [47;0]) = (Ok p_ab, Err).
 Proof. vm_compute. reflexivity. Qed.
 Example ex_ctor : objectpath_ctor objectpath_try_from_string.
-Proof. right. right. reflexivity. Qed.
+Proof. right. right. left. reflexivity. Qed.
+
+(* receive side: a valid name is delivered, an invalid one or a failed read is not *)
+Example ex_receive : (unmarshal_header_member (Ok m_x), unmarshal_header_member (Ok [48;97]), unmarshal_header_member Err,
+                      unmarshal_header_sender (Ok u_1_42), unmarshal_header_path (Ok [47;47]))
+                     = (Ok m_x, Err, Err, Ok u_1_42, Err).
+Proof. vm_compute. reflexivity. Qed.
+Example ex_decoder : name_field_decoder 7 = Some unmarshal_header_sender /\ name_field_decoder 5 = None.
+Proof. vm_compute. auto. Qed.
+Example ex_receive_path : (objectpath_unmarshal (Ok p_ab), objectpath_unmarshal (Ok [47;97;47]), unmarshal_param_objectpath (Ok p_ab),
+                           validate_raw_objectpath (Ok p_ab), validate_raw_objectpath (Ok [97]))
+                          = (Ok p_ab, Err, Ok p_ab, Ok tt, Err).
+Proof. vm_compute. reflexivity. Qed.
+Example ex_ctor_decode : objectpath_ctor (fun s => objectpath_unmarshal (Ok s)).
+Proof. right. right. right. reflexivity. Qed.
+(* message level: a reply without reply serial, a call without member, an Invalid message are refused; complete ones pass *)
+Definition hdr_reply : dynheader :=
+  {| dh_interface := None; dh_member := None; dh_object := None; dh_destination := Some u_1_42; dh_sender := None; dh_error_name := None |}.
+Example ex_msg : (marshal_header_msg MReply true hdr_reply, marshal_header_msg MReply false hdr_reply,
+                  marshal_header_msg MCall false hdr_reply, marshal_header_msg MInvalid true hdr_ok,
+                  is_ok (marshal_header_msg MSignal false hdr_ok))
+                 = (Ok [(6, u_1_42)], Err, Err, Err, true).
+Proof. vm_compute. reflexivity. Qed.
